@@ -209,7 +209,12 @@ pub fn run_plan(plan: &Plan) -> Result<Reduced, String> {
         red.runs_done += br.digests.len() as u64;
         red.distinct.extend(br.distinct.iter().copied());
         for (k, v) in &br.counters {
-            *red.counters.entry(k.clone()).or_insert(0) += v;
+            let e = red.counters.entry(k.clone()).or_insert(0);
+            if k.starts_with("max_") {
+                *e = (*e).max(*v);
+            } else {
+                *e += v;
+            }
         }
         if red.samples.len() < 3 {
             red.samples.extend(br.samples.iter().cloned().take(3 - red.samples.len()));
@@ -286,6 +291,20 @@ pub struct EvidenceInput<'a> {
     pub violations: u64,
 }
 
+/// "debug" when this binary was built without optimisation of the library's debug assertions
+/// (the thorough tier runs a reduced pass under the dev profile first).
+pub fn profile_pass() -> Option<String> {
+    std::env::var("VERIF_PROFILE_PASS").ok().filter(|s| !s.is_empty())
+}
+
+pub fn build_profile() -> &'static str {
+    if cfg!(debug_assertions) {
+        "dev (debug assertions and overflow checks on)"
+    } else {
+        "release (as shipped)"
+    }
+}
+
 pub fn write_evidence(e: EvidenceInput) -> Result<(), String> {
     let mut coverage = Map::new();
     coverage.insert("evaluations".into(), json!(e.evaluations));
@@ -295,6 +314,26 @@ pub fn write_evidence(e: EvidenceInput) -> Result<(), String> {
     for (k, v) in e.extra {
         coverage.insert(k, v);
     }
+    coverage.insert("build_profile".into(), json!(build_profile()));
+    let suffix = match profile_pass() {
+        Some(p) => format!(".{p}"),
+        None => {
+            // fold in the summary of a preceding pass under another profile, if there is one
+            let side = verif_root().join("evidence").join(format!("{}.debug.json", e.prop));
+            if let Ok(t) = std::fs::read_to_string(&side) {
+                if let Ok(v) = serde_json::from_str::<Value>(&t) {
+                    if v["seed"].as_u64() == Some(e.seed) {
+                        coverage.insert(
+                            "debug_profile_pass".into(),
+                            json!({"evaluations": v["coverage"]["evaluations"], "distinct_nontrivial": v["coverage"]["distinct_nontrivial"], "violations": v["violations"], "wall_s": v["wall_s"]}),
+                        );
+                    }
+                }
+                let _ = std::fs::remove_file(&side);
+            }
+            String::new()
+        }
+    };
     let doc = json!({
         "property_id": e.prop,
         "tier": e.tier,
@@ -305,7 +344,7 @@ pub fn write_evidence(e: EvidenceInput) -> Result<(), String> {
         "wall_s": (e.wall_s * 1000.0).round() / 1000.0,
         "violations": e.violations,
     });
-    write_json(&verif_root().join("evidence").join(format!("{}.json", e.prop)), &doc)
+    write_json(&verif_root().join("evidence").join(format!("{}{}.json", e.prop, suffix)), &doc)
 }
 
 pub fn seed_from_env() -> u64 {
